@@ -558,6 +558,19 @@ def subset (s : RSys) (pred : Rxn → Bool) (checks : List Check := []) : Except
     | .error c => .error c
     | .ok n => .ok (y, n)
 
+/-- `subset` for an ARBITRARY (possibly stateful) predicate: the loop `for r in self.rxns: yes.append(r) if pred(r) else no.append(r)`
+    consults the predicate exactly once per reaction, in order; `answers` are those answers. A stateful predicate (a seen-set, a
+    counter, an iterator of booleans) is therefore described by its answer list; a missing answer (`answers` too short) cannot occur. -/
+def subsetAnswers (s : RSys) (answers : List Bool) (checks : List Check := []) : Except Check (RSys × RSys) :=
+  let yes := ((s.rxns.zip answers).filter fun p => p.2).map (·.1)
+  let no := ((s.rxns.zip answers).filter fun p => !p.2).map (·.1)
+  match RSys.make yes (.odict (newSubstances s yes)) checks with
+  | .error c => .error c
+  | .ok y =>
+    match RSys.make no (.odict (newSubstances s no)) checks with
+    | .error c => .error c
+    | .ok n => .ok (y, n)
+
 /-- `self + other` (505-515): new OrderedDict from the chained items, `checks=()`, no sorting -/
 def add (a b : RSys) : RSys := ⟨a.rxns ++ b.rxns, odictOf (a.substs ++ b.substs)⟩
 
